@@ -639,7 +639,7 @@ def _compose_qoperations_MProcess_State(
 
     if elem1.mode_sampling:
         # return State
-        sample = multinomial.rvs(1, ps)
+        sample = multinomial.rvs(1, ps, random_state=elem1.random_state)
         sample_index = np.argmax(sample)
         return states[sample_index]
     else:
@@ -686,7 +686,9 @@ def _compose_qoperations_MProcess_StateEnsemble(
                 new_states.append(states[x_index * num_hss])
                 continue
             local_ps = local_ps / np.sum(local_ps)
-            sample = multinomial.rvs(1, local_ps)
+            sample = multinomial.rvs(
+                1, local_ps, random_state=elem1.random_state
+            )
             sample_index = np.argmax(sample)
             new_states.append(states[x_index * num_hss + sample_index])
         mult_dist = MultinomialDistribution(
